@@ -2,6 +2,7 @@
 // permuted twins; libvpsc and libavoid's private copy) and overlap-removal
 // sessions.  Serves C01, C02, C09 (+C15, C20).
 #include "core.h"
+#include "sigs.h"
 #include "oracle_qp.h"
 #include "libvpsc/solve_VPSC.h"
 #include "libvpsc/variable.h"
@@ -50,7 +51,7 @@ template <class NS> struct SolverSession : Session {
         catch (vpsc::UnsatisfiedConstraint &) { return "UnsatisfiedConstraint"; }
         catch (char *) { return "char*"; }
         catch (const char *) { return "char*"; }
-        catch (vpsc::CriticalFailure &f) { HarnessScope hs; return fmt("assert@%s:%d", strstr(f.file, "lib") ? strstr(f.file, "lib") : f.file, f.line); }
+        catch (vpsc::CriticalFailure &f) { HarnessScope hs; return assertSig(f); }
         catch (std::exception &e) { return std::string("std::exception"); }
         catch (...) { return "unknown"; }
         return "";
@@ -441,7 +442,7 @@ struct OverlapSession : Session {
                     if (mode == 1 && fixed.empty() && !third) vpsc::removeoverlaps(rs);
                     else if (mode == 2 && !third) vpsc::removeoverlaps(rs, fixed);
                     else vpsc::removeoverlaps(rs, fixed, third);
-                } catch (vpsc::CriticalFailure &f) { HarnessScope hs; ex = fmt("assert@%s:%d", strstr(f.file, "lib") ? strstr(f.file, "lib") : f.file, f.line); }
+                } catch (vpsc::CriticalFailure &f) { HarnessScope hs; ex = assertSig(f); }
                 catch (vpsc::UnsatisfiedConstraint &) { ex = "UnsatisfiedConstraint"; }
                 catch (...) { ex = "exception"; }
                 if (hadOverlap) probe("overlap.had-overlap");
